@@ -5,7 +5,71 @@ open Driver
 let opt_s (o : n list option) : string list =
   match o with Some v -> ["some"; hex_of_bstr v] | None -> ["none"]
 
+(* canonical text of a JSON value (Spec/Json.v jvalue): numbers as the exact normalised decimal *)
+let rec canon_jv (j : jvalue) : string =
+  match j with
+  | JvNull -> "null"
+  | JvBool true -> "true"
+  | JvBool false -> "false"
+  | JvNum (neg, m, e) -> "#" ^ (if neg then "-" else "") ^ string_of_n m ^ "e" ^ string_of_z e
+  | JvStr s -> "\"" ^ (if s = [] then "" else hex_of_bstr s) ^ "\""
+  | JvArr l -> "[" ^ String.concat "," (List.map canon_jv l) ^ "]"
+  | JvObj m -> "{" ^ String.concat "," (List.map (fun (k, x) -> "\"" ^ (if k = [] then "" else hex_of_bstr k) ^ "\":" ^ canon_jv x) m) ^ "}"
+
+(* code-unit strings: 4 hex digits per unit *)
+let units_of_hex4 (s : string) : n list =
+  if s = "-" then [] else List.init (String.length s / 4) (fun i -> n_of_int (int_of_string ("0x" ^ String.sub s (4 * i) 4)))
+let hex4_of_units (l : n list) : string =
+  if l = [] then "-" else String.concat "" (List.map (fun c -> Printf.sprintf "%04x" (int_of_n c)) l)
+let u_helper (fn : string) (x : n list) (args : string list) : n list outcome =
+  match fn, args with
+  | "escapeJsString", [] -> Ok (u_escape_js_string x)
+  | "escapeUri", [] -> u_escape_uri x
+  | "escapeHtml", [] -> Ok (u_escape_html x)
+  | "changeNewlineToBr", [] -> Ok (u_change_newline_to_br x)
+  | "insertWordBreaks", [k] -> Ok (u_insert_word_breaks x (z_of_int (int_field k)))
+  | "truncate", [k; e] -> Ok (u_truncate x (z_of_int (int_field k)) (e = "T"))
+  | _ -> failwith ("u_helper: " ^ fn)
+
 let () =
+  (* a soyutils.js helper on a code-unit string: u_helper <fn> <hex4 units> args... *)
+  register "u_helper" (fun a -> match a with
+    | fn :: x :: args -> outcome_s (fun v -> [hex4_of_units v]) (u_helper fn (units_of_hex4 x) args)
+    | _ -> failwith "u_helper: arity");
+  (* the helper on every single code unit 0..65535: results joined by "," ("!" = throws) *)
+  register "u_helper_all" (fun a -> match a with
+    | [fn] ->
+        let buf = Buffer.create (1 lsl 20) in
+        for u = 0 to 65535 do
+          if u > 0 then Buffer.add_char buf ',';
+          (match u_helper fn [n_of_int u] [] with
+           | Ok v -> Buffer.add_string buf (if v = [] then "" else hex4_of_units v)
+           | _ -> Buffer.add_char buf '!')
+        done;
+        [Buffer.contents buf]
+    | _ -> failwith "u_helper_all: arity");
+  (* the proved readers on a helper's output *)
+  register "jsu_read" (fun a -> match a with
+    | [q; x] -> (match jsu_read (n_of_int (int_field q)) (units_of_hex4 x) with Some v -> ["some"; hex4_of_units v] | None -> ["none"])
+    | _ -> failwith "jsu_read: arity");
+  (* json of a value (sexp, possibly several fields): Model/JsonEncode.v on the tree's nil-collection flag *)
+  register "c16_json" (fun a ->
+    let v = Sexp_ast.value_of (Sexp.parse (String.concat " " a)) in
+    outcome_s (fun s -> [hex_of_bstr s]) (json_encode json_nil_null v));
+  (* the Spec reader on a text: canonical form of the value, or none *)
+  register "json_canon" (fun a -> match a with
+    | [s] -> (match json_parse (bstr_of_hex s) with
+              | Some j -> ["some"; hex_of_bstr (bstr_of_string (canon_jv j))]
+              | None -> ["none"])
+    | _ -> failwith "json_canon: arity");
+  (* the theorem's statement evaluated on one value: json_parse (json_encode v) = jv_of_value v *)
+  register "c16_json_rt" (fun a ->
+    let v = Sexp_ast.value_of (Sexp.parse (String.concat " " a)) in
+    match json_encode json_nil_null v with
+    | Ok s -> (match json_parse s, jv_of_value v with
+               | Some j, Some j' -> [if j = j' then "same" else "differ"]
+               | _, _ -> ["none"])
+    | _ -> ["noenc"]);
   register "is_print" (fun a -> match a with [r] -> [bool_s (is_print_tbl (n_of_int (int_field r)))] | _ -> failwith "is_print: arity");
   register "js_escape" (fun a -> match a with [s] -> [hex_of_bstr (js_escape is_print_tbl (bstr_of_hex s))] | _ -> failwith "js_escape: arity");
   register "json_string" (fun a -> match a with [s] -> [hex_of_bstr (json_string (bstr_of_hex s))] | _ -> failwith "json_string: arity");
@@ -27,7 +91,7 @@ let () =
           | [] -> Ok v
           | (nm, args) :: rest ->
               let r =
-                if name_is nm "escapeJsString" then Ok (js_escape is_print_tbl v)
+                if name_is nm "escapeJsString" then Ok (js_escape_soy jsstr_pair_html is_print_tbl v)
                 else if name_is nm "json" then Ok (json_string v)
                 else if name_is nm "escapeUri" then Ok (escape_uri v)
                 else if name_is nm "escapeHtml" then Ok (tmpl_html_escape v)
